@@ -614,7 +614,7 @@ fn pat_is_bytes(p: &syn::Pat) -> bool {
 
 fn bytes_lit_text(b: &syn::LitByteStr) -> String {
     let v = b.value();
-    if (1..=3).contains(&v.len()) {
+    if (1..=4).contains(&v.len()) {
         // R4: `b"xy"` -> `&vx_bytes2(b'x', b'y')`: verified helper whose view is the spec sequence d2(x, y)
         let items: Vec<String> = v
             .iter()
@@ -965,6 +965,11 @@ impl<'ast, 'p> Visit<'ast> for Ctx<'p> {
                                     cond.push(Part::Lit(format!("vx_eq_bytes({mv}, ")));
                                     cond.push(Part::Src(cs, ce));
                                     cond.push(Part::Lit(")".into()));
+                                } else if matches!(c, syn::Pat::Lit(syn::ExprLit { lit: syn::Lit::Str(_), .. })) {
+                                    // R24: str equality through the typed helper (the generic PartialEq axioms are costly)
+                                    cond.push(Part::Lit(format!("vx_eq_str({mv}, ")));
+                                    cond.push(Part::Src(cs, ce));
+                                    cond.push(Part::Lit(")".into()));
                                 } else {
                                     cond.push(Part::Lit(format!("{mv} == ")));
                                     cond.push(Part::Src(cs, ce));
@@ -1091,6 +1096,30 @@ impl<'ast, 'p> Visit<'ast> for Ctx<'p> {
             );
             self.log(s, "R4b", "comparison with byte-string literal -> vx_eq_bytes");
         }
+        // R24: X == "lit" / X != "lit" -> [!]vx_eq_str(X, "lit")  (typed helper: the verifier's generic PartialEq axioms are costly)
+        let is_str = |e: &syn::Expr| matches!(e, syn::Expr::Lit(syn::ExprLit { lit: syn::Lit::Str(_), .. }));
+        if ne && (is_str(&b.right) || is_str(&b.left)) && self.in_verified_fn() {
+            let (s, e) = br(b.span());
+            let (ls, le) = br(b.left.span());
+            let (rs, re) = br(b.right.span());
+            self.replace(
+                s,
+                e,
+                vec![Part::Lit("!vx_eq_str(".into()), Part::Src(ls, le), Part::Lit(", ".into()), Part::Src(rs, re), Part::Lit(")".into())],
+            );
+            self.log(s, "R24", "X != \"lit\" -> !vx_eq_str(X, \"lit\")");
+        }
+        if eq && (is_str(&b.right) || is_str(&b.left)) && self.in_verified_fn() {
+            let (s, e) = br(b.span());
+            let (ls, le) = br(b.left.span());
+            let (rs, re) = br(b.right.span());
+            self.replace(
+                s,
+                e,
+                vec![Part::Lit("vx_eq_str(".into()), Part::Src(ls, le), Part::Lit(", ".into()), Part::Src(rs, re), Part::Lit(")".into())],
+            );
+            self.log(s, "R24", "X == \"lit\" -> vx_eq_str(X, \"lit\")");
+        }
         visit::visit_expr_binary(self, b);
     }
 
@@ -1140,17 +1169,32 @@ impl<'ast, 'p> Visit<'ast> for Ctx<'p> {
                 if let Some(k) = kind {
                     let (rs, re) = br(m.receiver.span());
                     let (as_, ae) = br(arg.span());
+                    if k == "chars" {
+                        // the array literal is passed element by element (no unsizing coercion in the verifier)
+                        let n = if let syn::Expr::Array(a) = arg { a.elems.len() } else { 0 };
+                        let inner = self.text(as_, ae).trim().trim_start_matches('[').trim_end_matches(']').to_string();
+                        self.replace(
+                            s,
+                            e,
+                            vec![
+                                Part::Lit(format!("vx_{}_chars{}(", name, n)),
+                                Part::Src(rs, re),
+                                Part::Lit(format!(", {})", inner)),
+                            ],
+                        );
+                    } else {
                     self.replace(
                         s,
                         e,
                         vec![
                             Part::Lit(format!("vx_{}_{}(", name, k)),
                             Part::Src(rs, re),
-                            Part::Lit(if k == "chars" { ", &".into() } else { ", ".into() }),
+                            Part::Lit(", ".into()),
                             Part::Src(as_, ae),
                             Part::Lit(")".into()),
                         ],
                     );
+                    }
                     self.log(s, "R19", &format!("str::{}(<{} literal>) -> vx_{}_{}", name, k, name, k));
                 }
             }
@@ -1437,7 +1481,7 @@ impl<'p> Ctx<'p> {
                     if !alts.is_empty() && alts.iter().all(|x| x.starts_with('"') && x.ends_with('"') && x.len() >= 2) {
                         self.counter += 1;
                         let v = format!("vx_t{}", self.counter);
-                        let chain: Vec<String> = alts.iter().map(|x| format!("{v} == {x}")).collect();
+                        let chain: Vec<String> = alts.iter().map(|x| format!("vx_eq_str({v}, {x})")).collect();
                         self.replace(
                             s,
                             e,
